@@ -246,7 +246,8 @@ class Campaign:
             binary = bins[name]["pbt"]
             schema = json.loads(subprocess.run([binary, "--schema"], stdout=subprocess.PIPE, text=True, env=dict(os.environ, **ENV_BASE)).stdout)
             h["_schema"] = schema
-            nvar = len(schema["variants"])
+            allowed = h.get("variants") or list(range(len(schema["variants"])))
+            nvar = len(allowed)
             k = alloc[name]
             total_cases = h.get(self.tier, 0)
             per = max(1, total_cases // k)
@@ -256,9 +257,9 @@ class Campaign:
                 cpu += 1
             for j in range(k if total_cases > 0 else 0):
                 if nvar >= k:
-                    vs = [v for v in range(nvar) if v % k == (j + self.seed) % k]
+                    vs = [allowed[v] for v in range(nvar) if v % k == (j + self.seed) % k]
                 else:
-                    vs = [(j + self.seed) % nvar]
+                    vs = [allowed[(j + self.seed) % nvar]]
                 jobs.append({"harness": name, "binary": binary, "j": j, "cpu": cpu % NCPU, "cases": per, "variants": vs, "restart": 0, "done": 0})
                 cpu += 1
         env = dict(os.environ)
@@ -350,6 +351,8 @@ class Campaign:
                 os.makedirs(corpus, exist_ok=True)
                 e = dict(env)
                 e["CDSVERIF_OUT"] = prefix
+                if h.get("variants"):
+                    e["CDSVERIF_VARIANTS"] = ",".join(str(v) for v in h["variants"])
                 s = sub_seed(self.seed, self.pid, name, "fuzz", j)
                 cmd = ["taskset", "-c", str(cpu % NCPU), bins[name]["fuzz"], corpus, "-runs=%d" % (h["fuzz_runs"] // per_h), "-seed=%d" % s,
                        "-entropic=0", "-max_len=192", "-len_control=0", "-timeout=0", "-rss_limit_mb=4096", "-print_final_stats=1",
